@@ -651,7 +651,7 @@ namespace awkward {
     }
     return std::make_shared<UnmaskedArray>(identities,
                                            parameters_,
-                                           content_.get()->carry(carry, allow_lazy));
+                                           content_.get()->carry(carry, false));
   }
 
   int64_t
